@@ -1181,7 +1181,7 @@ func encodeHeader(h *Header) (map[string]any, error) {
 	if apu := h.apu; apu != nil {
 		e.SetBytes(jwa.AgreementPartyUInfoKey, apu)
 	}
-	if apv := h.apu; apv != nil {
+	if apv := h.apv; apv != nil {
 		e.SetBytes(jwa.AgreementPartyVInfoKey, apv)
 	}
 
